@@ -1,0 +1,136 @@
+//go:build verif
+
+package logic
+
+import (
+	"sort"
+	"time"
+
+	"github.com/q191201771/lal/pkg/rtmp"
+)
+
+// Read-only views and clock/tick control for the admission / relay checks
+// (properties C03 and C17).  Nothing here is compiled without -tags verif.
+
+// VerifPushView is one relay-push proxy.
+type VerifPushView struct {
+	Url       string
+	IsPushing bool
+	Session   string // unique key of the attached push session, "" if none
+}
+
+// VerifGroupView is the admission state of one group.
+type VerifGroupView struct {
+	StreamName string
+	// the six input slots, "" = empty, else the unique key of the session
+	RtmpPub, RtspPub, CustomizePub, PsPub, RtmpPull, RtspPull string
+	IsSessionPulling                                          bool
+	StartCount                                                int
+	ApiEnable, StaticEnable                                   bool
+	PullRetryNum, AutoStopPullAfterNoOutMs                    int
+	// identity of the per-input pipeline: unique key of the RTMP->MPEG-TS remuxer
+	// created by addIn and dropped by delIn ("" = none)
+	Pipeline string
+	Push     []VerifPushView
+	// current pull session object (nil if none), for VerifIsClosed
+	RtmpPullSession *rtmp.PullSession
+}
+
+func (group *Group) verifView() VerifGroupView {
+	group.mutex.Lock()
+	defer group.mutex.Unlock()
+	v := VerifGroupView{StreamName: group.streamName}
+	if group.rtmpPubSession != nil {
+		v.RtmpPub = group.rtmpPubSession.UniqueKey()
+	}
+	if group.rtspPubSession != nil {
+		v.RtspPub = group.rtspPubSession.UniqueKey()
+	}
+	if group.customizePubSession != nil {
+		v.CustomizePub = group.customizePubSession.UniqueKey()
+	}
+	if group.psPubSession != nil {
+		v.PsPub = group.psPubSession.UniqueKey()
+	}
+	if group.pullProxy.rtmpSession != nil {
+		v.RtmpPull = group.pullProxy.rtmpSession.UniqueKey()
+		v.RtmpPullSession = group.pullProxy.rtmpSession
+	}
+	if group.pullProxy.rtspSession != nil {
+		v.RtspPull = group.pullProxy.rtspSession.UniqueKey()
+	}
+	v.IsSessionPulling = group.pullProxy.isSessionPulling
+	v.StartCount = group.pullProxy.startCount
+	v.ApiEnable = group.pullProxy.apiEnable
+	v.StaticEnable = group.pullProxy.staticRelayPullEnable
+	v.PullRetryNum = group.pullProxy.pullRetryNum
+	v.AutoStopPullAfterNoOutMs = group.pullProxy.autoStopPullAfterNoOutMs
+	if group.rtmp2MpegtsRemuxer != nil {
+		v.Pipeline = group.rtmp2MpegtsRemuxer.UniqueKey()
+	}
+	for u, p := range group.url2PushProxy {
+		pv := VerifPushView{Url: u, IsPushing: p.isPushing}
+		if p.pushSession != nil {
+			pv.Session = p.pushSession.UniqueKey()
+		}
+		v.Push = append(v.Push, pv)
+	}
+	sort.Slice(v.Push, func(i, j int) bool { return v.Push[i].Url < v.Push[j].Url })
+	return v
+}
+
+// VerifView returns the view of every group, sorted by stream name.
+func (sm *ServerManager) VerifView() []VerifGroupView {
+	sm.mutex.Lock()
+	defer sm.mutex.Unlock()
+	var out []VerifGroupView
+	sm.groupManager.Iterate(func(group *Group) bool {
+		out = append(out, group.verifView())
+		return true
+	})
+	sort.Slice(out, func(i, j int) bool { return out[i].StreamName < out[j].StreamName })
+	return out
+}
+
+// VerifTick is the body of one iteration of the one-second ticker in
+// ServerManager.RunLoop (erase inactive groups, tick the others), without the
+// wall-clock ticker around it.
+func (sm *ServerManager) VerifTick(tickCount uint32) {
+	sm.mutex.Lock()
+	defer sm.mutex.Unlock()
+	sm.groupManager.Iterate(func(group *Group) bool {
+		if group.IsInactive() {
+			group.Dispose()
+			return false
+		}
+		group.Tick(tickCount)
+		return true
+	})
+}
+
+// VerifShiftPullClock moves every group's "last time a consumer was seen" back
+// by ms milliseconds, which is indistinguishable (for the relay-pull rules) from
+// ms milliseconds passing.
+func (sm *ServerManager) VerifShiftPullClock(ms int64) {
+	sm.mutex.Lock()
+	defer sm.mutex.Unlock()
+	sm.groupManager.Iterate(func(group *Group) bool {
+		group.mutex.Lock()
+		group.pullProxy.lastHasOutTs -= ms
+		group.mutex.Unlock()
+		return true
+	})
+}
+
+// VerifNotifyBarrier returns after every notification posted so far has been
+// handed to the INotifyHandler (the notify thread is a single FIFO worker).
+func (sm *ServerManager) VerifNotifyBarrier() {
+	done := make(chan struct{})
+	sm.notifyHandlerThread.Go(func(param ...interface{}) {
+		close(done)
+	})
+	select {
+	case <-done:
+	case <-time.After(10 * time.Second):
+	}
+}
